@@ -65,12 +65,31 @@ func runPSHist(payload []*Sx) *Sx {
 	ps := cedar.NewPolicySet()
 	em, req := absEnv()
 	out := L()
+	// one policy OBJECT per pool entry and history: the same *Policy may be stored under several ids, in several sets and in copies
+	shared := map[int]*cedar.Policy{}
+	sharedPolicy := func(h int) *cedar.Policy {
+		if shared[h] == nil {
+			shared[h] = poolPolicy(h)
+		}
+		return shared[h]
+	}
+	// copies of the set taken earlier (All / Map) must not change when the set is modified afterwards
+	var snaps []cedar.PolicyMap
+	var snapWant []string
 	for _, op := range payload[0].List[1:] {
 		var r *Sx
 		switch op.Head() {
 		case "add":
-			ok := ps.Add(cedar.PolicyID(op.List[1].Str()), poolPolicy(int(mustInt64(op.List[2].Atom))))
+			ok := ps.Add(cedar.PolicyID(op.List[1].Str()), sharedPolicy(int(mustInt64(op.List[2].Atom))))
 			r = L(A("bool"), A(fmt.Sprint(ok)))
+		case "snap":
+			m := cedar.PolicyMap{}
+			for k, v := range ps.All() {
+				m[k] = v
+			}
+			r = bindingsSx(m)
+			snaps = append(snaps, m, ps.Map())
+			snapWant = append(snapWant, r.String(), r.String())
 		case "remove":
 			ok := ps.Remove(cedar.PolicyID(op.List[1].Str()))
 			r = L(A("bool"), A(fmt.Sprint(ok)))
@@ -207,6 +226,11 @@ func runPSHist(payload []*Sx) *Sx {
 			r = L(A("decision"), A(d), rl, el)
 		default:
 			panic("harness: unknown pshist op " + op.String())
+		}
+		for i, m := range snaps {
+			if bindingsSx(m).String() != snapWant[i] {
+				r = L(A("earlier-copy-of-the-set-changed"), bindingsSx(m))
+			}
 		}
 		out.List = append(out.List, r)
 	}
